@@ -7,6 +7,10 @@ import gfapy
 def check(case):
     version, order, history = case
     fails = []
+    from bounded import c03
+    if c03.ambiguous(version, order):
+        # a path with unspecified overlaps over parallel links does not determine which link it depends on: the cascade is not pinned
+        return dict(key=(version, tuple(sorted(order)), tuple(tuple(s[:3]) for s in history)), nontrivial=False, failures=[])
     key = (version, tuple(sorted(order)), tuple(tuple(s[:3]) for s in history))
     def fail(kind, what):
         sig = "C05:%s:%s" % (kind, history[-1][0] if history else "construct")
